@@ -132,7 +132,9 @@ where
             .cloned();
 
         match (left, right) {
-            (Some(l), Some(r)) if l.high + T::one() == value && value + T::one() == r.low => {
+            (Some(l), Some(r))
+                if l.high + T::one() == value && value < r.low && value == r.low - T::one() =>
+            {
                 self.pool.remove(&l);
                 self.pool.remove(&r);
                 self.pool.insert(ValueInterval::new_range(l.low, r.high));
@@ -141,7 +143,7 @@ where
                 self.pool.remove(&l);
                 self.pool.insert(ValueInterval::new_range(l.low, value));
             }
-            (_, Some(r)) if value + T::one() == r.low => {
+            (_, Some(r)) if value < r.low && value == r.low - T::one() => {
                 self.pool.remove(&r);
                 self.pool.insert(ValueInterval::new_range(value, r.high));
             }
